@@ -42,7 +42,7 @@ func (*prop) Assumptions() []string {
 }
 func (*prop) MinDistinct(tier string) int64 {
 	if tier == "thorough" {
-		return 3000
+		return 1200
 	}
 	return 200
 }
